@@ -22,7 +22,8 @@ Bag(TT, f(_)) == [x \in {f(t) : t \in TT} |-> Cardinality({t \in TT : f(t) = x})
 WS(w, t) == IF t \in wk[w].backlog THEN "backlog" ELSE IF t \in RunningTids(w) THEN "running" ELSE "gone"
 SigW2S(w) ==
   LET m == Head(wk[w].w2s) IN
-  IF m.k = "Update"
+  IF m.k = "WStop" THEN <<"WStop">>
+  ELSE IF m.k = "Update"
   THEN <<"Update", [i \in DOMAIN m.ups |-> IF m.ups[i].k = "Enable" THEN <<"Enable">>
                                             ELSE <<m.ups[i].k, TS(m.ups[i].t), m.ups[i].t \in DOMAIN task /\ task[m.ups[i].t].w = w>>]>>
   ELSE <<"RetractResponse", Bag(SeqSet(m.ids), TS), Len(m.ids)>>
@@ -51,6 +52,8 @@ SimNext ==
   \/ \E j \in DOMAIN job : depth >= gate.cancel /\ ClientCancel(j) /\ Lab([c |-> "Cancel", job |-> j]) /\ sig' = <<"Cancel", Bag(NonTerminal(job[j]), TS)>>
   \/ Schedule /\ Lab([c |-> "Schedule"]) /\ sig' = <<"Schedule", SigSchedule>>
   \/ \E w \in DOMAIN wk : SrvRecv(w) /\ Lab([c |-> "W2S", w |-> w]) /\ sig' = <<"W2S", SigW2S(w)>>
+  \/ \E w \in DOMAIN wk : SrvRecvStop(w) /\ Lab([c |-> "W2S", w |-> w]) /\ sig' = <<"W2S", <<"WStop", SigLose(w, FALSE)>>>>
+  \/ TimeTick /\ Lab([c |-> "Tick"]) /\ sig' = <<"Tick", [w \in DOMAIN wk |-> <<wk[w].remaining, wk[w].backlog # {}, wk[w].running # {}>>]>>
   \/ \E w \in DOMAIN wk : WkRecv(w) /\ Lab([c |-> "S2W", w |-> w]) /\ sig' = <<"S2W", SigS2W(w)>>
   \/ \E f \in fut : TaskExit(f, TRUE) /\ Lab([c |-> "Exit", w |-> f.w, t |-> f.t, ok |-> TRUE]) /\ sig' = <<"Exit", SigExit(f, TRUE)>>
   \/ \E f \in fut : depth >= gate.fail /\ TaskExit(f, FALSE) /\ Lab([c |-> "Exit", w |-> f.w, t |-> f.t, ok |-> FALSE]) /\ sig' = <<"Exit", SigExit(f, FALSE)>>
